@@ -43,6 +43,13 @@ func ErrorIsRetryable(err error) bool {
 			return true
 		}
 	}
+	// a retryable error that crossed an RPC boundary without a registered message (e.g. a deadline
+	// exceeded in a nested RPC, or a retryable error wrapped with context) is still marked by the
+	// origin with FailedPrecondition, see rpc.WrapError
+	var twerr twirp.Error
+	if errors.As(err, &twerr) && twerr.Code() == twirp.FailedPrecondition {
+		return true
+	}
 	return false
 }
 
